@@ -1480,6 +1480,14 @@ void UniCompiler::emit_3i(UniOpRRR op, const Gp& dst, const Operand_& src1_, con
           cc->cmova(dst, zero);
           cc->cmovg(dst, b);
         }
+        else if (dst_is_b) {
+          Gp bound = new_similar_reg(dst, "@bound");
+          cc->mov(bound, b);
+          cc->xor_(dst, dst);
+          cc->cmp(a, bound);
+          cc->cmovbe(dst, a);
+          cc->cmovg(dst, bound);
+        }
         else {
           cc->xor_(dst, dst);
           cc->cmp(a, b);
